@@ -1,8 +1,10 @@
 //! Correspondence / direct-oracle harness for the fe2o3-amqp verification.
 //! Every random choice derives from one PRNG state seeded by the caller.
 pub mod rng;
+pub mod alloc;
 pub mod out;
 pub mod c07;
 pub mod c08;
 pub mod val;
 pub mod codec;
+pub mod typed;
